@@ -158,10 +158,7 @@ func genBoostQ(t *rapid.T) float64 {
 	return 0
 }
 
-func distinctWords(t *rapid.T, n int) []string {
-	perm := rapid.Permutation(vocab).Draw(t, "words")
-	return append([]string(nil), perm[:n]...)
-}
+func distinctWords(t *rapid.T, n int) []string { return distinctWordsN(t, n) }
 
 // phraseFrom picks adjacent tokens of some document (so the phrase has a chance to match).
 func phraseFrom(t *rapid.T, c Corpus, field string, n int) []string {
@@ -379,9 +376,6 @@ func (e *evaluator) ref(q Q) (m map[int]float64, judged bool, f *vlib.Failure) {
 		if len(q.Must)+len(q.Should) == 0 {
 			s, f := e.scores(q)
 			return s, false, f
-		}
-		type part struct {
-			m map[int]float64
 		}
 		judged = true
 		var musts, shoulds, nots []map[int]float64
